@@ -98,6 +98,8 @@ def gen_netlist(rng: random.Random, max_comps=5, max_pins=4, kind="random", min_
         perm = list(range(n))
         rng.shuffle(perm)
         comp = {"n": n, "S": m2j(S), "perm": perm}
+        if rng.random() < 0.12:
+            comp["bare"] = True
         if kind in ("unitary", "unitary_sym", "contractive"):
             U = cayley_unitary(rng, n, symmetric=(kind == "unitary_sym"))
             if kind == "contractive":
@@ -186,7 +188,15 @@ def build(desc, shuffle=False):
         sts = {}
         with lk.Solver() as sol:
             for i in order:
-                sts[i] = models[i].put()
+                if comps[i].get("bare") and comps[i].get("n", 0) > 0 and not comps[i].get("ps"):
+                    # a bare Structure carrying its matrix (no Model object), added with add_structure
+                    n = comps[i]["n"]
+                    st = Structure(pin_list=[Pin(f"p{k}") for k in range(n)])
+                    st.Smatrix = np.array([j2m(comps[i]["S"]).reshape(n, n)], complex)
+                    sol.add_structure(st)
+                    sts[i] = st
+                else:
+                    sts[i] = models[i].put()
             for (a, b) in conns:
                 lk.connect(sts[a[0]].pin[f"p{a[1]}"], sts[b[0]].pin[f"p{b[1]}"])
             for (c, k, name) in expo:
